@@ -1,6 +1,7 @@
 """C01 - Parse accepts exactly the RFC 8259 language and reports failure coherently."""
 from vlib import *
 import p_text as T
+import p_pda as P
 
 PADS_Q = [0, 1, 31, 32, 33, 63, 64, 65]
 PADS_T = list(range(0, 71))
@@ -12,6 +13,13 @@ def run(tier):
     builds = ["prod-avx2", "asan-avx2", "prod-sse"] if q else \
         ["prod-avx2", "asan-avx2", "prod-sse", "asan-sse", "prod-dyn", "asan-dyn"]
     pads = PADS_Q if q else PADS_T
+    # design level: the I-model of parseImpl + node stack accepts exactly the R-model's language (every string up to a
+    # bound, state by state), and the real parser follows the I-model event by event (DRIFT only)
+    r, bad = P.mc_accept(ctx, 4 if q else 5)
+    if bad:
+        ctx.add_fail(dict(property="C01", kind="model", sig="model:ParserPDA", shape=dict(kind="model"), build="tlc",
+                          detail="ParserPDA invariants violated: " + r["out"][-1500:], case={}, replay=dict(harness="MC_ParserPDA")))
+    P.drift(ctx, 4 if q else 5, builds[:2])
     corpora = T.corpora(ctx, "C01")
     total = 0
     for name, rows in corpora:
